@@ -254,6 +254,62 @@ struct TrackedT {
     friend auto operator>=(TrackedT const& a, TrackedT const& b) -> bool { return a.v >= b.v; }
 };
 
+// Instrumented type whose copy/move ASSIGNMENT is defaulted (trivial) while construction and destruction are
+// user-provided and tracked: the RAII-handle shape that trait-based "is this trivially assignable" shortcuts get wrong.
+struct TrackedDA {
+    int v;
+
+    TrackedDA()
+    {
+        reg().on_construct(this);
+        v = 0;
+    }
+
+    TrackedDA(int x) // NOLINT
+    {
+        reg().on_construct(this);
+        v = x;
+    }
+
+    TrackedDA(TrackedDA const& o)
+    {
+        reg().need_live(&o, "copy-from-dead");
+        reg().on_construct(this);
+        ++reg().copies;
+        v = o.v;
+    }
+
+    TrackedDA(TrackedDA&& o) noexcept
+    {
+        reg().need_live(&o, "move-from-dead");
+        reg().on_construct(this);
+        ++reg().moves;
+        v   = o.v;
+        o.v = kMovedFrom;
+    }
+
+    auto operator=(TrackedDA const&) -> TrackedDA& = default;
+    auto operator=(TrackedDA&&) noexcept -> TrackedDA& = default;
+
+    ~TrackedDA()
+    {
+        reg().on_destroy(this);
+        v = -9999;
+    }
+
+    friend auto operator==(TrackedDA const& a, TrackedDA const& b) -> bool { return a.v == b.v; }
+
+    friend auto operator!=(TrackedDA const& a, TrackedDA const& b) -> bool { return a.v != b.v; }
+
+    friend auto operator<(TrackedDA const& a, TrackedDA const& b) -> bool { return a.v < b.v; }
+
+    friend auto operator>(TrackedDA const& a, TrackedDA const& b) -> bool { return a.v > b.v; }
+
+    friend auto operator<=(TrackedDA const& a, TrackedDA const& b) -> bool { return a.v <= b.v; }
+
+    friend auto operator>=(TrackedDA const& a, TrackedDA const& b) -> bool { return a.v >= b.v; }
+};
+
 using Tracked         = TrackedT<Kind::copy_move>;
 using TrackedB        = TrackedT<Kind::copy_move, 1>;
 using TrackedMoveOnly = TrackedT<Kind::move_only>;
@@ -263,6 +319,8 @@ template <typename T>
 inline constexpr bool is_tracked_v = false;
 template <Kind K, int Tag>
 inline constexpr bool is_tracked_v<TrackedT<K, Tag>> = true;
+template <>
+inline constexpr bool is_tracked_v<TrackedDA> = true;
 
 template <typename T>
 auto value_of(T const& x) -> long long
